@@ -17,6 +17,7 @@ import (
 	"fmt"
 	"math"
 	"os"
+	"runtime"
 	"strconv"
 	"strings"
 	"time"
@@ -122,6 +123,29 @@ func replay(r *hx.Run, lines []string) {
 				continue
 			}
 			r.Line(fmt.Sprintf("wg %d %d | %s", a, b, wm.arriveGap(a, b)), "ok")
+		case "wq":
+			t, _ := strconv.Atoi(f[1])
+			m, _ := strconv.Atoi(f[2])
+			u, thr := -1, 0
+			if f[3] != "-" {
+				u, _ = strconv.Atoi(f[3])
+				thr, _ = strconv.Atoi(f[4])
+			}
+			ok := wm != nil && wm.m.kind() == "stack" && t < len(wm.actors) && u < len(wm.actors) && u != t &&
+				wm.pending[t] == nil && wm.actors[t].state.Load() == stIdle
+			if ok && u >= 0 {
+				ok = wm.pending[u] == nil && wm.actors[u].state.Load() == stIdle
+			}
+			if !ok {
+				r.Line(l, "not-applicable")
+
+				continue
+			}
+			// replayed under both scheduler settings would need two runs; a single P is the decisive one
+			prev := runtime.GOMAXPROCS(1)
+			obs := wm.arrivePushWait(t, m, u, thr)
+			runtime.GOMAXPROCS(prev)
+			r.Line(fmt.Sprintf("wq %s %s %s %s | %s", f[1], f[2], f[3], f[4], obs), "ok")
 		case "seq":
 			var ans string
 			if f[1] == "sm" {
@@ -311,6 +335,13 @@ func main() {
 	for i := 0; i < 12000*r.Scale/quickDiv(r) && !giveUp(); i++ {
 		rng, sub := r.Rng.Fork()
 		randomWM(r, rng, sub)
+	}
+	// push-then-wait family: consumers parked in PopOrWait, Push x m immediately followed by WaitIsEmpty
+	for i := 0; i < 150*r.Scale/quickDiv(r) && !giveUp(); i++ {
+		for _, procs := range []int{1, 4, runtime.NumCPU()} {
+			rng, sub := r.Rng.Fork()
+			pushWaitCase(r, rng, sub, procs)
+		}
 	}
 	tArr := time.Since(t0)
 	// (2) stress
